@@ -43,3 +43,21 @@ Example C06_positive_examples :
   forallb (fun p => forallb (fun s => match verdict_of (cfg_insn 0) p s with Some Agree => true | _ => false end) [1; 2; 3; 4; 5; 6])
           [p_post; p_stmtexpr; p_arm] = true.
 Proof. vm_compute. reflexivity. Qed.
+
+(* ------------------------------------------------------------------ "temporaries are always written before they are read"
+   Decided per output by the must-analysis `da_effect` (definite assignment), evaluated in Coq on every real emitted effect
+   with all non-temporary locals taken as assigned (tools/vt/diffrun.py: tmp_def).  What a positive verdict means, for EVERY
+   effect, state and fuel: definite assignment is preserved by execution (loops and calls included), and a well-sorted,
+   definitely-assigned loop-free effect never gets stuck on a read of an unassigned local. *)
+From RZ.proofs Require Import SortSound.
+Theorem C06_definite_assignment_is_preserved : forall rw subs fuel e D D' s s',
+  da_effect rw D e = Some D' -> env_ok D (locals s) -> exec rw subs fuel e s = Some s' -> env_ok D' (locals s').
+Proof. intros rw subs fuel e D D' s s'. exact (da_effect_preservation rw subs fuel e D D' s s'). Qed.
+Print Assumptions C06_definite_assignment_is_preserved.
+Theorem C06_temporaries_written_before_read : forall rw subs e G G' H D D' s fuel,
+  wf_effect rw G e = Some G' -> ext G' H -> consistent H (locals s) ->
+  da_effect rw D e = Some D' -> env_ok D (locals s) ->
+  no_repeat e = true -> calls_opaque subs e -> (depth e <= fuel)%nat ->
+  exists s', exec rw subs fuel e s = Some s' /\ env_ok D' (locals s') /\ consistent H (locals s').
+Proof. intros rw subs e G G' H D D' s fuel. exact (wf_effect_progress rw subs e G G' H D D' s fuel). Qed.
+Print Assumptions C06_temporaries_written_before_read.
